@@ -255,6 +255,22 @@ def eval_group(case):
             fail('C11:groupby:empty', 'groupby of an empty table has %d rows' % len(G))
     if not unchanged(d, snap):
         fails.append(('C11:self-unchanged', 'listby/groupby altered the table'))
+    elif rows and len(rows) >= 2:
+        # the table is then changed in place (a key column rotated by one row) and grouped again: the answer is that of a table built afresh from the
+        # new cells - nothing computed for the old cells may be reused
+        try:
+            k0 = by[0]
+            col = list(d[k0])
+            d[k0] = col[1:] + col[:1]
+            fresh = dictable({c: list(d[c]) for c in cols})
+            for name, f in (('listby', lambda t: t.listby(*args)), ('groupby', lambda t: t.groupby(*args))):
+                a, b = f(d), f(fresh)
+                ra = [[r[c] if c != grp or name == 'listby' else sorted(map(repr, table_rows(r[c])[1])) for c in table_rows(a)[0]] for r in table_rows(a)[1]]
+                rb = [[r[c] if c != grp or name == 'listby' else sorted(map(repr, table_rows(r[c])[1])) for c in table_rows(b)[0]] for r in table_rows(b)[1]]
+                if repr(ra) != repr(rb):
+                    fail('C11:%s:after-in-place-change' % name, 'after d[%r] was reassigned in place, %s gives %r; a table built from the same cells gives %r' % (k0, name, ra, rb))
+        except Exception as e:      # noqa
+            fail('C11:regroup:raises', 'regrouping after an in-place change raised %s: %s' % (type(e).__name__, e))
     return fails
 
 
